@@ -96,3 +96,17 @@ TEXTS["C20"] = {
     "note": "Trusted: Coq kernel; the hand-written model (differentially validated, not proved equal to the Go code); extraction; OCaml driver; Go harness (handlers awaited with a 2 s timeout). No axioms.",
     "technique": "Coq proof (refinement of the ring by a fixed-length queue, list decomposition) + differential correspondence check + text-derived monitors",
 }
+
+STD_NOTE = "Trusted: Coq kernel, hand-written models (tied to /repo by differential runs, not proved equal to the Go code), extraction (ExtrOcamlBasic), OCaml driver, Go harness and monitors. No axioms (Closed under the global context)."
+TEXTS["C15"] = {"text": "Machine-checked proof (Coq) that the transcribed models of capacityLRU and of the hashicorp LRU behind simpleLRUCacheAdapter, wrapped by lruCache, refine a short reference LRU over every history of Put/HasOrAdd/Get/Peek/Has/Remove/Clear/(Un)RegisterHandler, every capacity >= 1, byte capacity >= 1 and every size (negative rejected): all return values, Keys order (LRU->MRU), Len, Peek, Has; invariants (unique keys, Len <= capacity, byte counter = sum of resident sizes, bytes <= capacity or single resident, eviction loop terminates); Put flag true iff a resident left; HasOrAdd flags; only least recently used entries leave and the written entry stays most recent; handler set = what the history registered and exactly one invocation per registered handler per insertion. Models tied to the Go code by differential runs (exhaustive small scope + random) on all observables incl. the multiset of handler invocations; monitors compare the implementation with a Go reference LRU written from the property text.",
+  "note": STD_NOTE + " SizeInBytesContained claimed for the sized variant only. int64 sums assumed < 2^63.",
+  "technique": "Coq refinement proof over executable Gallina models + differential correspondence check + reference-LRU monitors"}
+TEXTS["C17"] = {"text": "Machine-checked proof (Coq) over the transcribed storageCacherAdapter + capacityLRU + map persister that, for every history of Put/Get/Has/Peek with each key bound to one immutable non-empty value and sizes >= 0 (beyond the byte capacity and size-changing re-puts included) and every capacity/byte capacity >= 1: every key put so far is reported by Has and returned by Get with its value; an entry that leaves the memory tier in a step is in the persister with its value after that step; Put returns true iff an entry left the memory tier (and was persisted). Tied to the Go code (real capacityLRU + memorydb) by differential runs on return values, memory tier and persister contents; monitors check the three clauses directly on the implementation.",
+  "note": STD_NOTE + " Empty serialisations are skipped by design (domain restriction); Remove/Clear/Close outside the property.",
+  "technique": "Coq invariant proof over executable Gallina models + differential correspondence check + monitors"}
+TEXTS["C12"] = {"text": "Machine-checked proof (Coq) over the operational model transcribed from immunitycache/chunk.go, cache.go, config.go (chunks routed by bit-exact FNV-1 mod NumChunks; itemsAsList, immuneKeys, separate numBytes counter, eviction loop with fuel proved sufficient): for every history of HasOrAdd/Put/AddTx, Remove, ImmunizeKeys, Clear, every configuration Verify accepts and sizes >= 0, the key invariant (flag <=> key in immuneKeys, NoDup, accounting, per-chunk bound, routing) holds; an add removes only non-immune items; never changes the payload of a present key; is refused with the state unchanged when the target chunk is full of immune items; a key accepted by ImmunizeKeys keeps its item (present at that time or added later) retrievable with the original payload until Remove/Clear. Tied to the code by differential runs (exhaustive small scope + random, both ImmunityCache and CrossTxCache) and independent monitors of the property text; corpus histories reproduce F7 on the pre-fix code.",
+  "note": STD_NOTE,
+  "technique": "Coq proof (invariant + history theorems by induction over op lists) + differential correspondence check + text-derived monitors"}
+TEXTS["C13"] = {"text": "Machine-checked proof (Coq), same model as C12: Count <= NumChunks*(MaxNumItems/NumChunks) <= MaxNumItems; Count = |Keys| = |ForEachItem|, Get/Has/Keys agree, no duplicate key; NumBytes = sum of the sizes given at the insertion of each resident (provenance proved); CountImmune = number of accepted immune keys not since removed (a function of the history alone); HasOrAdd reports has iff present before and added iff it became present; with one chunk the resident sequence, the immune set and all outputs equal those of a short FIFO-queue spec evicting batches of oldest non-immune entries; Remove withdraws current and future immunity. Tied to the code by differential runs on all observers after every operation and by monitors incl. a harness-side FIFO reference queue.",
+  "note": STD_NOTE,
+  "technique": "Coq proof (invariants + refinement to a FIFO queue spec with one chunk) + differential correspondence check + text-derived monitors"}
